@@ -3,6 +3,8 @@
 tier=$1; shift
 V=$(cd "$(dirname "$0")/.." && pwd)
 mkdir -p /tmp/mutrepo$$
+# evidence and generated files describe /repo itself: keep them out of the way of the mutant runs
+bk=/tmp/mutrepo$$/.backup; mkdir -p $bk; cp -r $V/evidence $bk/evidence; cp -r $V/lean/FlytModel/Generated $bk/Generated
 for pat in "$@"; do
   for d in $V/seeded/$pat; do
     [ -f "$d/patch.diff" ] || continue
@@ -17,3 +19,4 @@ for pat in "$@"; do
     rm -rf $c
   done
 done
+rm -rf $V/evidence && cp -r $bk/evidence $V/evidence; cp $bk/Generated/*.lean $V/lean/FlytModel/Generated/; rm -rf /tmp/mutrepo$$
